@@ -31,7 +31,8 @@ PLAN = {
     'thorough': {'workers': 16, 'budget_s': 300, 'sampled_per_worker': 20000},
 }
 
-SYMS = ['INFO', 'OKAY', 'DATAok', 'DATAother', 'FAIL', 'garb']
+SYMS = ['INFO', 'OKAY', 'DATAok', 'DATAother', 'FAIL', 'garb', 'DATAokU']
+NSYM = 6     # the response automaton is enumerated over the first six
 CHUNK = 1024
 COMMANDS = [
     ['flash', ['boot']], ['erase', ['cache']], ['get_var', ['version']],
@@ -97,6 +98,8 @@ def render(sym, i, image_len):
     return 'DATA%08x' % image_len
   if sym == 'DATAother':
     return 'DATA%08x' % (image_len + 1)
+  if sym == 'DATAokU':
+    return 'DATA%08X' % image_len     # the same size, upper-case hex digits
   if sym == 'garb':
     return ['XYZWjunk', 'okayx', '', 'INF', 'DAT'][i % 5]
   raise ValueError(sym)
@@ -171,17 +174,22 @@ def enumerated(tier):
   maxlen = 4 if tier == 'quick' else 5
   for ci, _ in enumerate(COMMANDS):
     for n in range(0, maxlen + 1):
-      for seq in itertools.product(range(len(SYMS)), repeat=n):
+      for seq in itertools.product(range(NSYM), repeat=n):
         yield {'k': 'cmd', 'c': ci, 'seq': list(seq)}
   dl_len = 3 if tier == 'quick' else 5
   for n in range(0, dl_len + 1):
-    for seq in itertools.product(range(len(SYMS)), repeat=n):
+    for seq in itertools.product(range(NSYM), repeat=n):
       yield {'k': 'dl', 'size': 5, 'src': 'obj', 'seq': list(seq), 'prog': 'none'}
   for size in SIZES:
     for src in ('name', 'obj', 'obj_len0'):
       for prog in ('none', 'record', 'raise'):
-        for seq in ([2, 1], [0, 2, 0, 1], [3], [2, 4], [2, 0, 0], [1], [2]):
+        for seq in ([2, 1], [0, 2, 0, 1], [3], [2, 4], [2, 0, 0], [1], [2],
+                    [6, 1], [0, 6, 1]):
           yield {'k': 'dl', 'size': size, 'src': src, 'seq': seq, 'prog': prog}
+    # the chunk size setting is lowered after the handle was built
+    for seq in ([2, 1], [6, 1]):
+      yield {'k': 'dl', 'size': size, 'src': 'obj', 'seq': seq, 'prog': 'record',
+             'built_with_kb': 4}
     for seq in ([2, 1, 1], [2, 1, 0, 1], [2, 4, 1], [3, 1], [2, 1, 4]):
       yield {'k': 'flash_file', 'size': size, 'seq': seq}
 
@@ -275,7 +283,12 @@ def run_dl(case, flash_file=False):
   image = image_of(size)
   resps = [render(SYMS[s], i, size) for i, s in enumerate(case['seq'])]
   dev = FakeBootloader(resps)
-  cmds = fp.FastbootCommands(dev)
+  if case.get('built_with_kb'):
+    fp.FASTBOOT_DOWNLOAD_CHUNK_SIZE_KB = case['built_with_kb']
+  try:
+    cmds = fp.FastbootCommands(dev)
+  finally:
+    fp.FASTBOOT_DOWNLOAD_CHUNK_SIZE_KB = 1    # the size configured at transfer time
   infos, progress = [], []
   info_cb = lambda m: infos.append((m.header, m.message))
   prog = case.get('prog', 'none')
